@@ -1,10 +1,10 @@
 """C12: a module is loaded once per run and every import sees the same object (UgoSem import semantics, family mod)."""
-import json
+import json, os
 from checks import semcommon
 from lib import vlib
 
-RULE = ("programs: 9 import graphs over 3 source modules (independent, edge, diamond, chain, fan-out, cycles of length 1/2/3, unknown "
-        "module) x 14 import-site shapes in the main script (a builtin module whose nested and top-level values are changed in place, twice at top level, through a function called twice, in a taken / untaken "
+RULE = ("programs: 12 import graphs over 3 source modules (independent, edge, diamond, chain, fan-out, cycles of length 1/2/3, unknown "
+        "module; a chain and cycles of length 2 and 3 whose import expressions stand inside function literals of the modules) x 14 import-site shapes in the main script (a builtin module whose nested and top-level values are changed in place, twice at top level, through a function called twice, in a taken / untaken "
         "branch and a loop, only inside an uncalled function, diamond probes writing through one path and reading through another); "
         "the reference semantics gives the load log, the probe values and whether the compiler must refuse; replay x optimizer on/off "
         "x encode/decode round trip x second run on the same VM x run of a second VM on the same Bytecode (the first run must be invisible to it); non-trivial = graphs with at least one edge")
@@ -23,9 +23,31 @@ def run(ctx):
     res = ctx.path("c12-res.ndjson")
     cfgs = (["default", "noopt", "default+rt", "noopt+twice", "default+vm2", "noopt+rt+vm2"] if ctx.quick else
             ["default", "noopt", "limit1", "default+rt", "noopt+rt", "default+twice", "noopt+twice", "default+rt+twice", "default+vm2", "noopt+vm2", "default+rt+vm2", "noopt+rt+vm2"])
-    ctx.vh("sem", out, res, ",".join(cfgs))
+    marker = ctx.path("c12-marker.json")
+    p = ctx.vh("sem", out, res, ",".join(cfgs), env=dict(VH_SEM_MARKER=marker), check=False)
+    if p.returncode != 0:
+        # the replayer did not survive a case: an import cycle the compiler follows without end ends in a fatal
+        # stack overflow inside the compiler, which no recover can stop - that is the code's behaviour, not the harness's
+        err = p.stderr or ""
+        if ("stack overflow" in err or "stack exceeds" in err) and "ugo.(*Compiler)" in err and os.path.exists(marker):
+            m = json.load(open(marker))
+            ctx.violation("crash|" + vlib.sha(json.dumps(m["id"], sort_keys=True)),
+                          "%s: the compiler recursed until the process died (fatal stack overflow in ugo.(*Compiler)) instead of reporting an error\n%s" % (json.dumps(m["id"]), m["src"]),
+                          dict(kind="sem", id=m["id"], src=m["src"], want="a compile error"))
+        else:
+            raise vlib.Inconclusive("harness sem failed rc=%d:\n%s" % (p.returncode, err[-3000:]))
     n = 0
-    for r in vlib.read_ndjson(res):
+    if p.returncode != 0:
+        rows = []       # whatever the replayer wrote before it died (the last line may be cut short)
+        if os.path.exists(res):
+            for line in open(res):
+                try:
+                    rows.append(json.loads(line))
+                except ValueError:
+                    pass
+    else:
+        rows = vlib.read_ndjson(res)
+    for r in rows:
         n += 1
         ctx.evaluations += len(r["got"])
         key = vlib.sha(json.dumps(r["id"], sort_keys=True))
@@ -60,7 +82,7 @@ def run(ctx):
         raise vlib.Inconclusive("no many-module script ran")
     ctx.evaluations += many
     ctx.cov["many_module_scripts"] = many
-    if n == 0:
+    if n == 0 and not ctx.violations:
         raise vlib.Inconclusive("no programs")
     ctx.cov["programs"] = n
     ctx.exhaustive = True
